@@ -139,7 +139,8 @@ func (iv *Value) ValueFrom(value any) {
 			iv.ItemValue = string(data)
 		}
 		if rt.Kind() == reflect.String {
-			vv := value.(string)
+			// (not value.(string): that assertion panics for a named string type)
+			vv := reflect.ValueOf(value).String()
 			var arr []any
 			if err := json.Unmarshal([]byte(vv), &arr); err != nil {
 				return
